@@ -52,13 +52,21 @@ theorem insert_preserves_curve (p : ℕ) (Ul : List K) (P : List (List K)) (ub u
   knotInsertion_preserves_curve p Ul P ub u r s d j hP hm hlen hpn hub1 hub2 hmult hr1 hrs hlo hhi hlast
 
 /-- **Any sequence of admissible insertions** (each request admissible in the state it is applied to:
-    `ReqsOk`) leaves every point of a well-formed curve unchanged, and well-formedness is preserved. -/
+    `ReqsOk`) leaves every point of a well-formed curve unchanged (every parameter of the closed domain,
+    every coordinate), and well-formedness is preserved: the final knot vector / control points are again
+    `CurveWF` (sorted knots, `len(U) = n + p + 1`, same dimension of every point, non-degenerate last span)
+    and both ends of the domain are unchanged. -/
 theorem insert_sequence_preserves (p d : ℕ) (reqs : List (K × ℕ × ℕ)) (st : List K × List (List K))
-    (hwf : CurveWF p d st.1 st.2) (hok : ReqsOk p st reqs) (u : K)
-    (hlo : fnOf st.1 p ≤ u) (hhi : u ≤ fnOf st.1 st.2.length) (j : ℕ) :
-    (curvePoint p (fnOf (reqs.foldl (insStep p) st).1) (reqs.foldl (insStep p) st).2 u).getD j 0
-      = (curvePoint p (fnOf st.1) st.2 u).getD j 0 :=
-  insert_sequence_preserves_curve p d reqs st hwf hok u hlo hhi j
+    (hwf : CurveWF p d st.1 st.2) (hok : ReqsOk p st reqs) :
+    CurveWF p d (reqs.foldl (insStep p) st).1 (reqs.foldl (insStep p) st).2 ∧
+    fnOf (reqs.foldl (insStep p) st).1 p = fnOf st.1 p ∧
+    fnOf (reqs.foldl (insStep p) st).1 (reqs.foldl (insStep p) st).2.length = fnOf st.1 st.2.length ∧
+    ∀ (u : K), fnOf st.1 p ≤ u → u ≤ fnOf st.1 st.2.length → ∀ j : ℕ,
+      (curvePoint p (fnOf (reqs.foldl (insStep p) st).1) (reqs.foldl (insStep p) st).2 u).getD j 0
+        = (curvePoint p (fnOf st.1) st.2 u).getD j 0 :=
+  ⟨(insert_sequence_wf p d reqs st hwf hok).1, (insert_sequence_wf p d reqs st hwf hok).2.1,
+   (insert_sequence_wf p d reqs st hwf hok).2.2,
+   fun u hlo hhi j => insert_sequence_preserves_curve p d reqs st hwf hok u hlo hhi j⟩
 
 /-- **Surfaces, v direction**: the net produced by the model of `operations.insert_knot` (every row –
     iso-curve `u = const` – goes through A5.1, rows are concatenated again) gives the same surface
@@ -257,7 +265,8 @@ theorem insert_w_preserves_volume (pu pv pw : ℕ) (Uu Uv : ℕ → K) (Uwl : Li
 
 /-- The object-level model `Shape.mapDir` applied to a shape with three parametric directions is
     `mapVol` on its sizes and net (so the three theorems above are about what `insertKnotDir` does
-    to a volume). -/
+    to a volume).
+    (Unfolding lemma (definition of `Shape.mapDir` for `pdim = 3`).) -/
 theorem mapDir_volume (S : Shape K) (dir : ℕ) (f : List (List K) → List (List K)) (h : S.pdim = 3) :
     S.mapDir dir f = mapVol dir (S.size 0) (S.size 1) (S.size 2) S.net f := by
   unfold Shape.mapDir
@@ -266,7 +275,8 @@ theorem mapDir_volume (S : Shape K) (dir : ℕ) (f : List (List K) → List (Lis
 /-- What one direction of the model of `operations.insert_knot` returns for a volume (three
     parametric directions) when the multiplicity check passes: the knot vector of that direction with
     `r` copies inserted at the span found by the linear search, the size reported by `mapVol`, and
-    the net `mapVol dir … (A5.1 on every iso-curve)` – the objects of the theorems above. -/
+    the net `mapVol dir … (A5.1 on every iso-curve)` – the objects of the theorems above.
+    (Unfolding lemma: it spells out the definition of `insertKnotDir` on the accepting branch, nothing more.) -/
 theorem insertKnotDir_volume (S : Shape K) (dir : ℕ) (u : K) (r : ℕ) (tol : K) (check : Bool) (h3 : S.pdim = 3)
     (hok : ¬ (check = true ∧ r + findMultiplicity u (S.kv dir) tol > S.deg dir)) :
     insertKnotDir S dir u r tol check = some { S with
@@ -299,7 +309,8 @@ theorem insert_volume_net_size (su sv sw d r p : ℕ) (U : ℕ → K) (P : List 
    fun hk => let h := mapVol1_insert_spec su sv sw d r p U P ub s k hP hlen hsu hsw hpk hk hrs; ⟨h.1, h.2.1, h.2.2.1⟩,
    fun hk => let h := mapVol2_insert_spec su sv sw d r p U P ub s k hP hlen hsu hsv hpk hk hrs; ⟨h.1, h.2.1, h.2.2.1⟩⟩
 
-/-- The knot vector gains exactly `r` entries … -/
+/-- The knot vector gains exactly `r` entries …
+    (Structural fact (length of `take ++ replicate ++ drop`); holds for any arguments.) -/
 theorem insertKv_length (U : List K) (u : K) (k r : ℕ) : (knotInsertionKv U u k r).length = U.length + r := by
   unfold knotInsertionKv
   simp only [List.length_append, List.length_take, List.length_replicate, List.length_drop]
@@ -321,12 +332,16 @@ theorem insertKv_monotone (U : List K) (ub : K) (k r : ℕ) (hlen : k + 1 < U.le
   rw [fnOf_knotInsertionKv U ub k r hlen]
   exact Uh_mono (fnOf U) k r ub hm h1 h2
 
-/-- The control polygon grows by exactly `r` points, each of the same dimension. -/
-theorem insert_net_length (p : ℕ) (U : ℕ → K) (P : List (List K)) (u : K) (r s k : ℕ) :
-    (knotInsertion p U P u r s k).length = P.length + r :=
-  knotInsertion_length p U P u r s k
+/-- The control polygon grows by exactly `r` points (this half is the length of a `map`: it holds for any
+    arguments), and - for an admissible call (`p ≤ k < n`, `r + s ≤ p`, `s ≤ k`) on a net whose points all have
+    `d` coordinates - every point of the new net has `d` coordinates again (`NetOk d`). -/
+theorem insert_net_length (p : ℕ) (U : ℕ → K) (P : List (List K)) (u : K) (r s k d : ℕ) (hP : NetOk d P)
+    (hpk : p ≤ k) (hk : k < P.length) (hrs : r + s ≤ p) (hsk : s ≤ k) :
+    (knotInsertion p U P u r s k).length = P.length + r ∧ NetOk d (knotInsertion p U P u r s k) :=
+  ⟨knotInsertion_length p U P u r s k, knotInsertion_netOk p U P u r s k d hP hpk hk hrs hsk⟩
 
-/-- A request beyond the allowed multiplicity (`r > p - s`) is rejected (no new object). -/
+/-- A request beyond the allowed multiplicity (`r > p - s`) is rejected (no new object).
+    (Unfolding lemma: the guard of the model (mirroring the `GeomdlException` of `insert_knot`) evaluated.) -/
 theorem insert_rejected (S : Shape K) (dir : ℕ) (u : K) (r : ℕ) (tol : K)
     (h : S.deg dir < r + findMultiplicity u (S.kv dir) tol) :
     insertKnotDir S dir u r tol true = none := by
@@ -356,6 +371,12 @@ example : ReqOk 2 (([0,0,0,1,1,1] : List ℚ), [[0,0],[1,2],[2,0]]) (1/2, 1, 0) 
   exfalso
   simp only [Nat.sub_zero] at h1
   exact absurd h2 (not_le.mpr h1)
+
+/-- non-vacuity of `insert_net_length`: quadratic, three 2-D points, one insertion into span 2 gives four 2-D points -/
+example : (knotInsertion 2 (fnOf ([0,0,0,1,1,1] : List ℚ)) [[0,0],[1,2],[2,0]] (1/2) 1 0 2).length = 3 + 1 ∧
+    NetOk 2 (knotInsertion 2 (fnOf ([0,0,0,1,1,1] : List ℚ)) [[0,0],[1,2],[2,0]] (1/2) 1 0 2) :=
+  insert_net_length 2 _ _ _ 1 0 2 2 (by intro pt hpt; simp at hpt; rcases hpt with h | h | h <;> simp [h])
+    (by omega) (by simp) (by omega) (by omega)
 
 /-- non-vacuity of the volume theorems: degrees (1,1,2), sizes 2×2×3, w knots 0,0,0,1,1,1, insert 1/2 once
     (span 2, multiplicity 0), evaluate at w = 3/4 (old span 2, new span 3) -/
